@@ -296,6 +296,27 @@ func c09Run(s *Shard) {
 			s.Report(c09Input(c))
 		}
 	}
+	// alternatives that carry a value under a key nobody declared and that a criterion-adding bias would generate
+	for _, m := range []string{"majorityHeuristic", "electreIII", "aspectEliminationHeuristic", "satisfactionHeuristic"} {
+		for _, gk := range []struct {
+			key string
+			b   M
+		}{{"__concealedCriterion__", biasAlphabet(0)[4]}, {"__anchoring_criterion_ideal", anchoringBias(2, false, false)}, {"__anchoring_criterion_nadir", anchoringBias(2, true, false)}} {
+			for _, ex := range []bool{false, true} {
+				if !s.Take() {
+					continue
+				}
+				r := rootRequest(m, true, false)
+				for i, a := range asL(r["knownAlternatives"]) {
+					asM(asM(a)["criteria"])[gk.key] = float64(i) + 0.5
+				}
+				c := &Case{Prop: "C09", Kind: "input", Req: withBiases(r, []M{gk.b}), Params: M{"exact_capacity": ex, "name": "undeclared-key-like-generated-id/" + m + "/" + gk.key}}
+				s.Evals++
+				s.Begin(c)
+				s.Report(c09Input(c))
+			}
+		}
+	}
 	// (c)
 	chains := [][]M{}
 	core := biasAlphabet(0)
